@@ -368,6 +368,19 @@ def r_algtab(repo, tier):
         out.inst("cst.%s" % name, {"rule": "cst.%s folds with Python %s" % (name, sorted(found)), "reference": pyop})
         if found and found != {pyop}:
             out.report(EXPR, "cst.%s" % name, "folds with %s" % sorted(found), meth.node.lineno, "constant folding of %s uses Python operator %s, expected %s" % (name, sorted(found), pyop))
+    # ---------------- (f) shift saturation: a constant fold may short-cut an oversized shift to 0 only for << and >>
+    for name in ("__lshift__", "__rshift__", "__floordiv__"):
+        meth = cstc.methods.get(name)
+        if meth is None:
+            continue
+        for n in ast.walk(meth.node):
+            if isinstance(n, ast.Return) and isinstance(n.value, ast.Call) and norm(n.value.func) == "cst" and n.value.args and isinstance(n.value.args[0], ast.Constant):
+                n_rules += 1
+                lit = n.value.args[0].value
+                okz = name in ref["shift_saturates_to_zero"] and lit == 0
+                out.inst("cst.%s::literal" % name, {"rule": "cst.%s returns the literal %r" % (name, lit), "allowed": okz})
+                if not okz:
+                    out.report(EXPR, "cst.%s" % name, "literal result %r" % lit, n.lineno, "cst.%s short-cuts to the literal %r; an arithmetic shift right by >= width yields the sign fill (0 or -1), only << and >> saturate to 0" % (name, lit))
     # ---------------- (e) unsigned belief
     oi = repo.func(EXPR, "_operator.__init__").node
     unsigned_syms = set()
@@ -723,6 +736,7 @@ def r_oppure(repo, tier):
     for name in ("eqn1_helpers", "eqn2_helpers"):
         owners.append((repo.func(EXPR, name), "e"))
     for f, root in owners:
+        prov = provenance(f.node, set(f.params()))
         for n in _walk_no_nested(f.node):
             tg = n.targets if isinstance(n, ast.Assign) else ([n.target] if isinstance(n, ast.AugAssign) else [])
             for t in tg:
@@ -731,6 +745,11 @@ def r_oppure(repo, tier):
                     if r == root and depth >= 2:
                         out.inst("%s::child-store" % f.key, None)
                         out.report(f.file, f.dqual, "store %s" % norm(t), n.lineno, "in-place simplification writes a field of a child node (%s) that may be shared with other expressions" % norm(t))
+                elif isinstance(t, ast.Subscript) and isinstance(t.value, ast.Name) and t.value.id != root:
+                    # in-place part assignment x[i:j] = ... on an object read out of the owned node (x = e.l): mutates a child
+                    if prov.get(t.value.id) in ("container", "param"):
+                        out.inst("%s::child-part-store" % f.key, None)
+                        out.report(f.file, f.dqual, "part store %s" % norm(t), n.lineno, "in-place part assignment on %s, an operand read out of the node being simplified: the operand object (possibly shared with other expressions) is turned into the result" % t.value.id)
     return out
 
 
